@@ -15,7 +15,7 @@ LEVEL = 'model_checking'
 TECHNIQUE = ('explicit-state breadth-first model checking of the implementation: states are canonical disk images, transitions execute the real '
              'trash-put / trash-restore / trash-rm / trash-empty on the state rebuilt from its snapshot; a bag reference model is stepped in lock-step and '
              'trash-list is compared with it after every transition')
-LEVEL_TEXT = ('every state reachable by at most d commands (quick d=5, thorough d=6) from the empty trash over a 17-command alphabet on two volumes is generated, deduplicated by a '
+LEVEL_TEXT = ('every state reachable by at most d commands (quick d=5, thorough d=6) from the empty trash, and by at most 3 (thorough 5) commands from a second initial state in which one volume holds entries in both .Trash/uid and .Trash-uid, over a 17-command alphabet on two volumes is generated, deduplicated by a '
               'canonical hash of the whole disk image, and in every state the output of the real trash-list must equal the bag (multiset of date+path lines) and the pairs on disk must equal the bag')
 LEVEL_NOTE = ('exhaustive to the stated depth only; canonicalisation drops directory/.trashinfo mtimes and inode numbers, which no trash-cli code path reads (grep st_mtime|st_ino is empty); '
               'trusted: R3/R4/R5 reference models')
@@ -39,16 +39,9 @@ def now_of(day):
     return (real.strptime(BASE, '%Y-%m-%dT%H:%M:%S') + datetime.timedelta(days=day)).strftime('%Y-%m-%dT%H:%M:%S')
 
 
-def initial(tier):
-    W = scen.base_world(mounts=MOUNTS)
-    W.dir('/home/u/w').dir('/mnt/v1/p')
-    return [{'nodes': W.spec()['nodes'], 'model': {'bag': [], 'day': 0}}]
-
-
-def key_of(st):
-    # only used for initial states: hash of nodes through a sandbox-free canonical form
+def _snap_of_nodes(nodes):
     snap = {}
-    for n in st['nodes']:
+    for n in nodes:
         if n[0] == 'd':
             snap[n[1]] = ('d', n[2], 0)
         elif n[0] == 'f':
@@ -56,7 +49,29 @@ def key_of(st):
         else:
             snap[n[1]] = ('l', n[2], 0)
     snap['/'] = ('d', 0o755, 0)
-    return world.canon_hash(snap, extra=json.dumps(st['model']['day']))
+    return snap
+
+
+def initial(tier):
+    W = scen.base_world(mounts=MOUNTS)
+    W.dir('/home/u/w').dir('/mnt/v1/p')
+    out = [{'nodes': W.spec()['nodes'], 'model': {'bag': [], 'day': 0}}]
+    if True:
+        # second initial state: the volume already has an entry in the user's .Trash-uid, and a sticky .Trash has appeared since,
+        # so that new puts go to .Trash/uid and BOTH directories of the volume hold entries
+        W2 = scen.base_world(mounts=MOUNTS)
+        W2.dir('/home/u/w').dir('/mnt/v1/p').dir('/mnt/v1/.Trash', mode=0o1777)
+        scen.add_trashed(W2, '/mnt/v1/.Trash-0', 'old', 'p/old', '2024-02-20T12:00:00', payload='file', tag='pre-existing')
+        nodes = W2.spec()['nodes']
+        dg = digest_of(_snap_of_nodes(nodes), '/mnt/v1/.Trash-0/files/old')
+        out.append({'nodes': nodes, 'model': {'bag': [['/mnt/v1/p/old', '2024-02-20T12:00:00', dg, '/mnt/v1/.Trash-0']], 'day': 0},
+                    'max_depth': 3 if tier != 'thorough' else 5})
+    return out
+
+
+def key_of(st):
+    # only used for initial states: hash of nodes through a sandbox-free canonical form
+    return world.canon_hash(_snap_of_nodes(st['nodes']), extra=json.dumps(st['model']['day']))
 
 
 def same_model(a, b):
@@ -121,7 +136,7 @@ def apply(sb, model, action):
         dg = digest_of(before, path)
         r = sb.run(['trash-put', path], env=ENV, cwd='/', now=now)
         execs += 1
-        td = scen.HOME_TRASH if path.startswith('/home') else '/mnt/v1/.Trash-0'
+        td = scen.HOME_TRASH if path.startswith('/home') else ('/mnt/v1/.Trash/0' if before.get('/mnt/v1/.Trash', ('x',))[0] == 'd' else '/mnt/v1/.Trash-0')
         if r.exit != 0:
             viol = ('C09|put-failed', 'put-failed', {'err': r.err[-300:]})
         bag2 = R3.put(bag, path, now, dg, td)
@@ -189,7 +204,7 @@ def step(task):
 
 def replay_history(case):
     """re-execute a history from the initial state without the explorer"""
-    st = initial('quick')[case.get('initial', 0)]
+    st = initial('thorough')[case.get('initial', 0)]
     out = {'verdict': 'ok', 'klass': 'history-ok'}
     hist = []
     for a in case['history']:
